@@ -299,6 +299,7 @@ def extract_encode(prog, f):
         X = y
     m["round"] = rnd
     c = bsub = None
+    x0_bias = None
     if X.op == "bin" and X.args[0] == "Div" and is_lit(X.args[2]):
         c = X.args[2]
         X = X.args[1]
@@ -306,9 +307,39 @@ def extract_encode(prog, f):
     if X.op == "bin" and X.args[0] == "Sub" and is_lit(X.args[2]):
         bsub = X.args[2]
         x0 = X.args[1]
+        x0_bias = x0
         # guarded by Ge(x0, b)
         facts = [fact_of_guard(gd) for gd in fa.guards(guard_block if guard_block is not None else b) if gd[4] == "switch"]
         guard_ok = any(fc[0] == "Ge" and fc[1] is x0 and (fc[2] is bsub or (fconst(fc[2]) is not None and fconst(fc[2]) == fconst(bsub))) for fc in facts)
+        if not guard_ok:
+            # `match value.partial_cmp(&bias) { Some(Less) | None => Err, Some(_) => value -= bias }`: the subtraction is a join of the arms
+            # value > bias and value == bias; each way into it carries one of the two facts, which together are value >= bias
+            def _hits(fs):
+                return any(fc[0] in ("Ge", "Gt", "Eq") and fc[1] is x0 and (fc[2] is bsub or (fconst(fc[2]) is not None and fconst(fc[2]) == fconst(bsub))) for fc in fs)
+
+            _memo = {}
+
+            def _every_way(blk_, depth=0):
+                if blk_ in _memo:
+                    return _memo[blk_]
+                _memo[blk_] = False             # a cycle back to this block does not establish the fact
+                r_ = _every_way0(blk_, depth)
+                _memo[blk_] = r_
+                return r_
+
+            def _every_way0(blk_, depth):
+                if _hits([fact_of_guard(gd) for gd in fa.guards(blk_) if gd[4] == "switch"]):
+                    return True
+                ps = [p_ for p_ in fa.fn.pred(blk_) if p_ in fa.fn.reachable()]
+                if depth > 12 or not ps:
+                    return False
+                for p_ in ps:
+                    if _hits([fact_of_guard(gd) for gd in fa.edge_guard(p_, blk_) if gd[4] == "switch"]):
+                        continue
+                    if not _every_way(p_, depth + 1):
+                        return False
+                return True
+            guard_ok = _every_way(guard_block if guard_block is not None else b)
         X = x0
     m["c"], m["b"], m["bias_guard"] = c, bsub, guard_ok
     # X must be the user's value: *value or unwrap(*value)
@@ -322,12 +353,42 @@ def extract_encode(prog, f):
         return None, "encoded value does not derive from the argument: " + show(X, names)
     # errors: only OutOfRange from the bias guard
     errs = set()
+    refusal_ok = True
+    refusal_why = ""
     for bb in sorted(f.reachable()):
         for i, s in enumerate(f.blocks[bb]["stmts"]):
             if s["k"] == "assign" and s["place"]["local"] == 0 and s["rv"]["k"] == "aggregate" and s["rv"].get("vname") == "Err":
                 v = fa.rv_term(s["rv"], (bb, i))
                 errs.add(v.args[3][0].args[2] if v.args[3] and v.args[3][0].op == "agg" else "?")
+                if bsub is not None:
+                    # the converse of the bias guard: a value is refused only when it is below the bias (value == bias is the lowest pattern and
+                    # has to be accepted).  Every way into the refusal carries value < bias - or facts no real number satisfies (the NaN arm of a
+                    # float partial_cmp: not >, not <, not ==)
+                    def _is_b(z):
+                        return z is bsub or (fconst(z) is not None and fconst(z) == fconst(bsub))
+
+                    def _below(fs):
+                        rel = {fc[0] for fc in fs if fc[1] is x0_bias and _is_b(fc[2])}
+                        return "Lt" in rel or ({"Le", "Ne"} <= rel) or ({"Ge", "Le", "Ne"} <= rel) or ({"Lt", "Gt"} <= rel)
+
+                    _m2 = {}
+
+                    def _ways(blk_, depth=0):
+                        if blk_ in _m2:
+                            return _m2[blk_]
+                        _m2[blk_] = False
+                        r_ = _below([fact_of_guard(gd) for gd in fa.guards(blk_) if gd[4] == "switch"])
+                        if not r_ and depth <= 12:
+                            ps = [p_ for p_ in f.pred(blk_) if p_ in f.reachable()]
+                            r_ = bool(ps) and all(_below([fact_of_guard(gd) for gd in fa.guards(p_) if gd[4] == "switch"] +
+                                                         [fact_of_guard(gd) for gd in fa.edge_guard(p_, blk_) if gd[4] == "switch"]) or _ways(p_, depth + 1) for p_ in ps)
+                        _m2[blk_] = r_
+                        return r_
+                    if not _ways(bb):
+                        refusal_ok = False
+                        refusal_why = "the refusal at line %s is reached by values that are not below the bias" % s.get("line")
     m["errs"] = errs
+    m["refusal_ok"], m["refusal_why"] = refusal_ok, refusal_why
     return m, ""
 
 
@@ -527,6 +588,7 @@ def check_fields(prog, res, prop="C08", floor=309):
         if b_d is not None:
             res.ob("O-bias", "%s | encode subtracts the bias only under value >= bias, else OutOfRange" % fid,
                    me["bias_guard"] is True and me["errs"] <= {"OutOfRange"}, "guard=%s errors=%s" % (me["bias_guard"], sorted(me["errs"])), fe.loc)
+            res.ob("O-bias", "%s | a value is refused only when it is below the bias (value == bias is accepted)" % fid, me.get("refusal_ok", True), me.get("refusal_why", ""), fe.loc)
             res.ob("O-bias", "%s | biased fields use an unsigned carrier and a positive resolution (decoded values pass the guard)" % fid,
                    kind == "u" and (c_d is None or c_d > 0), "kind=%s c=%s" % (kind, c_d), fd.loc)
         else:
